@@ -317,6 +317,8 @@ def _r6(db, rep):
     r10 = rep.rule('r10', 'HASH-REFRESHED: src::Handle::UpdateHashes recomputes the core hash on every path on which the handle has a source: the core hash is what the outdated mechanism compares, and it is not a function of the full hash '
                           '(moving a text between two fields of a constituent keeps the full hash and changes the core hash)', 1)
     _hash_refreshed(db, r10)
+    r11 = rep.rule('r11', 'HASH-ANNOUNCED: the stored hashes of a source handle are the reference against which the next announced change is measured: outside the handle itself and the loader they are refreshed only by a function that read the core hash before the refresh and reaches OnCoreChange after it (a silent refresh makes the next announcement compare the new content with itself, and the operations built on the source stay done)', 2)
+    _hash_announced(db, r11)
     r9 = rep.rule('r9', 'CELL-FREE: a pictogram is put only into a grid cell that was computed as free (ClosestFreePos / ChildPosFor) or whose occupancy was examined on the way: two pictograms never end up sharing a cell, none loses its cell to another', 2)
     _cell_free(db, r9)
     r6 = rep.rule('r6', 'HANDLE-ACCESS / LOAD-PARENT: the raw source pointer of a handle is read only inside ossSourceFacet; LoadParent refuses exactly the connections that are self-connections, duplicates or close a loop of any length (the parent relation of a loaded document is acyclic)', 2)
@@ -551,6 +553,49 @@ def _cell_free(db, r9):
                              '(serialising the schema then throws bad_optional_access)' % (c.get('txt') or '')[:60])
     if not n_sites:
         r9.broken('no call of ossGridFacet::SetPosFor found')
+
+
+def _hash_announced(db, rule):
+    HU = 'ccl::src::Handle::UpdateHashes'
+    n_sites = 0
+    for f in db.functions:
+        if f.rec.get('dependent') or not f.has_cfg() or f.name.startswith('ccl::src::Handle::'):
+            continue
+        # direct writes of the stored hashes
+        for b in f.walk():
+            lhs = None
+            if b['k'] == 'BinaryOperator' and b.get('op') == '=':
+                lhs = f.strip(f.children(b)[0])
+            elif b['k'] == 'CXXOperatorCallExpr' and b.get('op') == '=' and b.get('args'):
+                lhs = f.strip(f.stmts[b['args'][0]])
+            if lhs is not None and lhs['k'] == 'MemberExpr' and lhs.get('member') in ('coreHash', 'fullHash') and 'Handle' in (lhs.get('cls') or lhs.get('btype') or 'Handle'):
+                n_sites += 1
+                rule.violation('write:' + f.name.split('::')[-1], f.loc(b), '%s assigns the stored %s of a source handle directly: the reference of the next announced change is replaced without any comparison' % (f.name.split('::')[-1], lhs['member']))
+        sites = call_sites(f, lambda n: n.get('cs') == HU)
+        if not sites:
+            continue
+        n_sites += len(sites)
+        inst = 'refresh:' + '::'.join(f.name.split('::')[-2:])
+        reads = [f.position_of(m) for m in f.walk() if m['k'] == 'MemberExpr' and m.get('member') == 'coreHash']
+        reads = [p for p in reads if p is not None]
+        notes = [p for p, _ in call_sites(f, lambda n: (n.get('cs') or '').endswith('::OnCoreChange'))]
+        entry = f.graph()[1]
+        unread = paths_avoiding(f, [entry], reads, [(p, '') for p, _ in sites]) if reads else [1]
+        cut_off = []
+        for p, _ in sites:
+            # some path from the refresh reaches the announcement of the change
+            if notes and not paths_avoiding(f, [p], [], [(q, "") for q in notes]):
+                cut_off.append(p)
+        if unread:
+            rule.violation(inst, f.loc(sites[0][1]), '%s refreshes the stored hashes of a handle without having read the previous core hash: nothing can be compared, the change between the old and the new content is lost for the outdated mechanism' % f.name.split('::')[-1])
+        elif not notes or cut_off:
+            rule.violation(inst, f.loc(sites[0][1]), '%s refreshes the stored hashes of a handle and never reaches OnCoreChange afterwards: the operations built on this source are not told that its formal content changed and keep reporting done' % f.name.split('::')[-1])
+        else:
+            rule.ok(inst, 'the previous core hash is read before the refresh and OnCoreChange is reachable after it', f.loc(sites[0][1]))
+    if n_sites == 0:
+        rule.broken('no call of src::Handle::UpdateHashes found outside the handle')
+    else:
+        rule.ok('writers', 'no direct assignment of a stored hash outside src::Handle; %d refresh site(s)' % n_sites, '')
 
 
 def _hash_refreshed(db, r10):
